@@ -2,7 +2,7 @@ SPECIFICATION Spec
 CONSTANTS
   N = 4
   AllNord = FALSE
-  OwnNeg = 1
+  OwnNeg = 0
   OwnPos = 1
   MaxSteps = 2
   Variant = "design"
